@@ -8,7 +8,7 @@ CONSTANTS
   MaxNpts = 4
   Acts = {"CvSplitTake", "CvJoin"}
   PtKinds = {"gen"}
-  WtKinds = {"none"}
+  WtKinds = {"none", "gen"}
   ExtraNodes <- Extra0
   NodeSize = 2
   Scenario = "single"
